@@ -23,7 +23,7 @@ def run(ctx):
                     ("RedirectWhenAsked", "RedirectOnly"), ("ReturnLeaderIndex", "Transparent")):
         vlib.tlc_neg(ctx, "Forward", "Forward_neg_%s.cfg" % sw, expect=inv, workers=4)
     tr = os.path.join(ctx.scratch, "forward.ndjson")
-    p = ctx.run_harness(["forward-trace", "-out", tr, "-rounds", str(ctx.pick(2, 8)), "-churn", str(ctx.pick(25, 200)),
+    p = ctx.run_harness(["forward-trace", "-out", tr, "-rounds", str(ctx.pick(2, 8)), "-churn", str(ctx.pick(40, 250)),
                          "-dir", ctx.sub("fw")], timeout=3000)
     st = json.loads(p.stdout.strip().splitlines()[-1])
     ctx.cov["driver"] = st
